@@ -151,10 +151,12 @@ def main():
         raise Injected(f"injected at {point}")
 
     orig_execute = TK.SearchTask.execute
-    orig_simple = TK.SearchTask._simple_search
-    orig_put = TK.SearchTask.put_result
-    orig_pre = RS.ResultStoreParallel.preallocate
-    orig_sync = RS.ResultStoreParallel.sync
+    # private names: hooked where they exist.  After a refactoring that renamed one, the plans
+    # that need it simply do not fire (counted as fault_not_reached), the check does not break.
+    orig_simple = getattr(TK.SearchTask, '_simple_search', None)
+    orig_put = getattr(TK.SearchTask, 'put_result', None)
+    orig_pre = getattr(RS.ResultStoreParallel, 'preallocate', None)
+    orig_sync = getattr(RS.ResultStoreParallel, 'sync', None)
     orig_getsize = os.path.getsize
 
     def execute(self):
@@ -202,7 +204,7 @@ def main():
         hit('sync_after')
         return r
 
-    orig_add_to = RS.ResultStoreParallel._add_to_store
+    orig_add_to = getattr(RS.ResultStoreParallel, '_add_to_store', None)
 
     def _add_to_store(self, value, store, idx=None):
         # called with an explicit idx only from sync(), inside its critical section
@@ -228,12 +230,27 @@ def main():
         TK.RESULTS_QUEUE_SIZE = plan['queue_size']
         SR.RESULTS_QUEUE_SIZE = plan['queue_size']
     TK.SearchTask.execute = execute
-    TK.SearchTask._simple_search = _simple_search
-    TK.SearchTask.put_result = put_result
-    RS.ResultStoreParallel.preallocate = preallocate
-    RS.ResultStoreParallel.sync = sync
-    RS.ResultStoreParallel._add_to_store = _add_to_store
-    RS.log = LogProxy(RS.log)
+    if orig_simple is not None:
+        TK.SearchTask._simple_search = _simple_search
+    else:
+        # fallback for 'mid_file': the per-line entry point of a search definition
+        from searchkit import searchdef as SD
+        orig_sd_run = SD.SearchDef.run
+
+        def sd_run(self, *a, **k):
+            hit('mid_file')
+            return orig_sd_run(self, *a, **k)
+        SD.SearchDef.run = sd_run
+    if orig_put is not None:
+        TK.SearchTask.put_result = put_result
+    if orig_pre is not None:
+        RS.ResultStoreParallel.preallocate = preallocate
+    if orig_sync is not None:
+        RS.ResultStoreParallel.sync = sync
+    if orig_add_to is not None:
+        RS.ResultStoreParallel._add_to_store = _add_to_store
+    if hasattr(RS, 'log'):
+        RS.log = LogProxy(RS.log)
     os.path.getsize = getsize
     real_lock = RS.RESULTS_STORE_LOCK
 
